@@ -177,6 +177,11 @@ class Models:
         segs = p.split('::')
         if len(segs) >= 2 and segs[-2] in self.STD_ENUMS and segs[-1] in self.STD_ENUMS[segs[-2]]:
             return Enum(segs[-2], self.STD_ENUMS[segs[-2]][segs[-1]], segs[-1], list(ops))
+        if len(segs) == 1 and not ops:
+            # rustc prints some external field-less variants by their bare name (e.g. chrono's `Micros`)
+            owners = [en for en, vs in self.STD_ENUMS.items() if segs[0] in vs and en in ('SecondsFormat',)]
+            if len(owners) == 1:
+                return Enum(owners[0], self.STD_ENUMS[owners[0]][segs[0]], segs[0], [])
         L = self.it.layouts
         if len(segs) >= 2:
             e = L.enum('::'.join(segs[:-1]))
